@@ -151,7 +151,8 @@ INTEGRATORS = ["ias15", "whfast", "leapfrog", "mercurius", "saba", "janus", "bs"
 
 def new_sim(rebound, spec):
     sim = rebound.Simulation()
-    sim.add(m=1.0)
+    if spec.get("n", 2) >= 1:
+        sim.add(m=1.0)
     for i in range(spec.get("n", 2) - 1):
         sim.add(m=1e-3 * (i + 1), a=1.0 + 0.7 * i, e=0.05 * i, inc=0.01 * i, r=1e-4)
     sim.integrator = spec.get("integrator", "whfast")
@@ -266,6 +267,9 @@ def apply_op(rebound, sim, op, fname):
             vc = sim.var_config[0]
             for i in range(vc.index, sim.N):
                 sim.particles[i].x = 3e120
+    elif k == "snap_del":
+        sim.save_to_file(fname, delete_file=True)       # first snapshot of a history: the file does not exist yet
+        return True
     elif k == "snap":
         sim.save_to_file(fname)
         return True
